@@ -351,19 +351,23 @@ def unfolded(func: ast.AST, node: ast.AST, facts: dict[str, bool] | None = None,
 
     key = (id(func), tuple(sorted((facts or {}).items())))
     if key not in _SYM_CACHE:
+        # every node carries an identity that survives the deep copy made by the specialisation (positions do not
+        # identify a node: statements inlined from a helper all have the position of the call they replace)
+        for k_, n_ in enumerate(ast.walk(func)):
+            if not hasattr(n_, "_gv_uid"):
+                n_._gv_uid = (id(func), k_)
         g = specialise(func, facts) if facts else func
         _SYM_CACHE[key] = (func, g, SymValues(g))  # func kept alive so that id() stays unique
     _, g, sv = _SYM_CACHE[key]
     if g is func:
         target = node
     else:
-        loc = (getattr(node, "lineno", None), getattr(node, "col_offset", None), getattr(node, "end_lineno", None), getattr(node, "end_col_offset", None))
-        cands = [n for n in ast.walk(g) if isinstance(n, (ast.expr, ast.stmt)) and (getattr(n, "lineno", None), getattr(n, "col_offset", None), getattr(n, "end_lineno", None), getattr(n, "end_col_offset", None)) == loc]
-        same = [n for n in cands if type(n) is type(node)]
-        if not (same or cands):
-            # folded away (e.g. the taken branch of a conditional expression): look for the enclosing located node
+        uid = getattr(node, "_gv_uid", None)
+        cands = [n for n in ast.walk(g) if uid is not None and getattr(n, "_gv_uid", None) == uid]
+        if not cands:
+            # folded away (e.g. the taken branch of a conditional expression)
             return None
-        target = (same or cands)[0]
+        target = cands[0]
     if not sv.cfg.has(target):
         return None
     tn = sv.cfg.node_of(target)
